@@ -194,12 +194,15 @@ def real_framer(ctx: Ctx):
     cases["12 packets"] = one * 12
     cases["header only"] = one[:6]
     cases["cut in body"] = one * 2 + one[:7]
+    big = ccsds_bytes(bytes(65536), apid=2)                 # the largest packet CCSDS allows (length field 0xFFFF)
+    cases["a maximum-size packet between two small ones"] = one + big + one
+    counts = {"a maximum-size packet between two small ones": 3}
     for name, data in cases.items():
         site = f"{fi.key}::real-framer::{name}"
         rec = Rec()
         ext = rec.ext(opener=lambda *a, data=data, **k: file_source(data))
-        h = Harness(prog, ext, max_steps=60000 + 500 * len(data))
-        npk = data.count(one) if name != "header only" else 0
+        h = Harness(prog, ext, max_steps=60000 + 500 * min(len(data), 2000) + len(data) // 4)
+        npk = counts.get(name, data.count(one) if name != "header only" else 0)
         try:
             kind, got = h.outcome("describe_packets(fp)", CLI, fp="FILE")
         except StepLimit:
@@ -256,6 +259,10 @@ def check(ctx: Ctx) -> None:
     ctx.guard("R19.2", f"{CLI}::parse", index_rule, ctx)
     ctx.guard("R19.3", CLI, loops_rule, ctx)
     ctx.guard("R19.4", CLI, real_framer, ctx)
+    if ctx.stats.get("tier") == "thorough":
+        # "on any file": a 45 MB file (the framer trims its buffer twice) is framed into exactly its packets
+        from . import framer as F
+        ctx.guard("R19.big", F.GEN, F.big_stream_case, ctx, "R19.big")
 
 
 def mutants(prog):
